@@ -412,7 +412,8 @@ fn pollgap(rest: &[String]) -> i32 {
         done.store(true, Ordering::Release);
         let log = mon.join().unwrap();
         for (k, t) in &log {
-            writeln!(out, "{}", json!({"ev": "poll", "run": run, "k": k, "t": t.min(&2_000_000_000)})).unwrap();
+            // a poll noticed by the monitor after the search came back happened before it came back
+            writeln!(out, "{}", json!({"ev": "poll", "run": run, "k": k, "t": (*t).min(t_ret).min(2_000_000_000)})).unwrap();
         }
         writeln!(out, "{}", json!({"ev": "ret", "run": run, "k": verif::polls(), "t": t_ret.min(2_000_000_000),
             "soft": soft.as_nanos() as u64, "hard": hard.as_nanos() as u64,
